@@ -4,7 +4,8 @@
 #ifndef VERIF_NATIVE
 #define IN(T, name) T name
 #define IN_ARR(T, name, N) T name[N]
-#define IN_BOOL(name) _Bool name
+unsigned char nondet_uchar(void);
+#define IN_BOOL(name) _Bool name = (_Bool)(nondet_uchar() & 1)
 #define VERIF_MAIN()
 #endif
 #endif
